@@ -37,6 +37,9 @@ def run(ctx: Ctx):
     from .common import generic_lints
 
     generic_lints(ctx)
+    from .common import shim_leaves_transforms_alone
+
+    shim_leaves_transforms_alone(ctx)
     from .common import nullable_key_agreement
 
     nullable_key_agreement(ctx)
